@@ -13,6 +13,12 @@ for x in m:
                 c[k] = c.get(k, 0) + 1
         for k, v in list(c.items())[:40]:
             print(v, k)
+            if 'contracts/' in k[3] or k[3].endswith('.h'):
+                try:
+                    import glob
+                    fn=[f for f in glob.glob('/verif/contracts/*.h') if f.endswith(k[3].split('/')[-1])][0]
+                    print('      >>', open(fn).read().split('\n')[int(k[4])-1][:200])
+                except Exception as e: pass
         if tr:
             for p in x['result']:
                 if p['status'] == 'FAILURE' and pat in p['property'] and not p['description'].startswith('reach'):
